@@ -269,6 +269,100 @@ def termination_rule(prog, chk, pid, an: ExcAnalysis):
                     "every iteration consumes input from a finite source (length-checked read of >= 1 byte, readline with an end-of-input raise, shrinking buffer) so the loop ends or raises", why)
 
 
+def _reads_before(stmts, idx, rdr_name, fold):
+    """bytes certainly consumed from reader `rdr_name` by the straight-line statements stmts[:idx] after its creation (reads in branches / loops are not counted)"""
+    total = 0
+    for st in stmts[:idx]:
+        tops = []
+        if isinstance(st, (ast.Assign, ast.Expr, ast.AnnAssign, ast.AugAssign, ast.Return)) and getattr(st, "value", None) is not None:
+            tops = [st.value]
+        elif isinstance(st, ast.If):
+            tops = [st.test]
+        for top in tops:
+            for c in ast.walk(top):
+                if (isinstance(c, ast.Call) and isinstance(c.func, ast.Attribute) and c.func.attr in ("read", "read_int") and isinstance(c.func.value, ast.Name) and c.func.value.id == rdr_name
+                        and len(c.args) == 1):
+                    try:
+                        k = fold(c.args[0])
+                    except NotConst:
+                        continue
+                    if isinstance(k, int) and k > 0:
+                        total += k
+    return total
+
+
+def mac_input_rule(prog, chk, pid, an: ExcAnalysis):
+    """the registered cipher's mac() cannot take an empty input (the plug-in's feeder raises a bare Exception): every cmac() call a parser reaches must be handed data that is provably
+    non-empty.  Accepted proof: the data is X[:-K] and the call is preceded, in the same straight-line block, by exact reads of more than K bytes from BytesReader(X)."""
+    P = lambda s: "%s.%s" % (pid, s)
+    n_sites = 0
+    # functions of the library reachable from the parser entry points (calls resolved by simple name: an over-approximation)
+    lib = {q: f for q, f in prog.funcs.items() if q.startswith("bec2format.")}
+    by_name: Dict[str, List[str]] = {}
+    for q, f in lib.items():
+        by_name.setdefault(f.name, []).append(q)
+    reach, todo = set(), [q for q in ENTRY if q in lib]
+    while todo:
+        q = todo.pop()
+        if q in reach:
+            continue
+        reach.add(q)
+        for c in ast.walk(lib[q].node):
+            if isinstance(c, ast.Call):
+                nm = c.func.attr if isinstance(c.func, ast.Attribute) else getattr(c.func, "id", None)
+                todo.extend(by_name.get(nm, []))
+                if nm and nm[:1].isupper():
+                    todo.extend(x for x in by_name.get("__init__", []) if x.endswith("." + nm + ".__init__"))
+    for q in sorted(reach):
+        fi = lib[q]
+        fold = lambda e, _fi=fi: prog.fold(_fi.module, e, _fi.cls)
+
+        def blocks(node):
+            for fld in ("body", "orelse", "finalbody"):
+                b = getattr(node, fld, None)
+                if isinstance(b, list) and b and isinstance(b[0], ast.stmt):
+                    yield b
+                    for st in b:
+                        if not isinstance(st, (ast.FunctionDef, ast.ClassDef, ast.AsyncFunctionDef)):
+                            yield from blocks(st)
+            for h in getattr(node, "handlers", []) or []:
+                yield from blocks(h)
+
+        for blk in blocks(fi.node):
+            for i, st in enumerate(blk):
+                own = [st.test] if isinstance(st, (ast.If, ast.While)) else [st.iter] if isinstance(st, ast.For) else [st] if not hasattr(st, "body") else []
+                for top in own:
+                    for c in ast.walk(top):
+                        if not (isinstance(c, ast.Call) and isinstance(c.func, ast.Name) and c.func.id == "cmac" and c.args):
+                            continue
+                        n_sites += 1
+                        data = c.args[0]
+                        ok, why = False, "the data argument %s may be empty" % ast.unparse(data)
+                        if isinstance(data, ast.Subscript) and isinstance(data.value, ast.Name) and isinstance(data.slice, ast.Slice) and data.slice.lower is None and data.slice.upper is not None:
+                            try:
+                                k = fold(data.slice.upper)
+                            except NotConst:
+                                k = None
+                            if isinstance(k, int) and k < 0:
+                                # the enclosing statement lists, innermost first: look for `R = BytesReader(X, ...)` followed by reads of more than K bytes, all before the call
+                                got = 0
+                                for blk2 in blocks(fi.node):
+                                    idx2 = next((j for j, s2 in enumerate(blk2) if any(x is c for x in ast.walk(s2))), None)
+                                    if idx2 is None:
+                                        continue
+                                    for j in range(idx2):
+                                        s2 = blk2[j]
+                                        if (isinstance(s2, ast.Assign) and len(s2.targets) == 1 and isinstance(s2.targets[0], ast.Name) and isinstance(s2.value, ast.Call)
+                                                and getattr(s2.value.func, "id", None) == "BytesReader" and s2.value.args and isinstance(s2.value.args[0], ast.Name) and s2.value.args[0].id == data.value.id):
+                                            got = max(got, _reads_before(blk2[j + 1:idx2], idx2 - j - 1, s2.targets[0].id, fold))
+                                ok = got > -k
+                                why = "only %d byte(s) are certainly read from %s before its MAC is computed over %s: for shorter input the MAC input is empty and the cipher raises a bare Exception" % (got, data.value.id, ast.unparse(data))
+                        (chk.ok if ok else chk.fail)(P("mac-input-nonempty"), fi.qualname, "cmac(%s, ...)" % ast.unparse(data), "%s:%d" % (fi.file, c.lineno),
+                                                     "the MAC input is X[:-K] after more than K bytes of X were read: it cannot be empty" if ok else why)
+    if n_sites < 2:
+        raise AnalysisError("expected at least the two cmac() call sites of the BF3 reader, found %d" % n_sites)
+
+
 def run(prog, chk, tier):
     chk.explanation = ("Each parser entry point is interpreted with bec2format, the plug-in adapter and pyaes inlined (AES block functions summarised; the vendored ECC "
                        "decoders enter through the summary that C19 establishes). Every explicit raise and every implicit raiser of a fixed catalogue (subscripts typed by "
@@ -310,6 +404,7 @@ def run(prog, chk, tier):
     chk.info["allowed_escapes"] = total_allowed
     chk.info["unresolved_calls"] = an.unresolved[:20]
     typed_union_rule(prog, chk, "C14")
+    mac_input_rule(prog, chk, "C14", an)
     termination_rule(prog, chk, "C14", an)
     chk.require(not an.global_writes, "C14.no-global-writes", "reachable from the parser entry points", "stores to module globals / registry / module-level containers", an.global_writes[0][0] if an.global_writes else "",
                 "no function reachable from a parser writes library-global state (the register_* functions are the only writers and are unreachable)", "global state is written by %s" % (an.global_writes[:3],))
